@@ -17,6 +17,7 @@ mod c15;
 mod c16;
 mod c17;
 mod c18;
+mod c19;
 mod smoke;
 
 fn main() {
@@ -33,6 +34,7 @@ fn main() {
         "c16" => c16::run(&args, &mut rep),
         "c17" => c17::run(&args, &mut rep),
         "c18" => c18::run(&args, &mut rep),
+        "c19" => c19::run(&args, &mut rep),
         "c18-smoke" => std::process::exit(c18::smoke_child(args.extra.first().map_or("", String::as_str))),
         "smoke" => smoke::run(&args, &mut rep),
         "c02" => c02::run(&args, &mut rep),
